@@ -88,13 +88,25 @@ def make_scenario(seed, idx, U, si=False):
     extra = {}
     if si or idx % 2 == 1:
         extra = {"prefix": "feat-", "suffix": ".feat"}  # the file names are built from these wherever the tool names a feature file
+    # an id that itself looks like the name of a feature file of this run (it starts with --file-prefix and ends with --file-suffix)
+    ids[0] = extra.get("prefix", "") + ids[0] + extra.get("suffix", ".pt")
+    # two ids for one recording (two consecutive lines of the map name the same file): each id is an utterance of its own
+    same = {"same_path": len(ids) - 1} if (idx % 2 == 0 and not si) else {}
     return {"idx": idx, "ids": ids, "lens": lens, "cfg": cfg, "pre": [{"name": "preemph"}, {"name": "dither", "coeff": 3.0}], "seed_opt": 0 if idx % 2 == 0 else int(rng.integers(1, 50)),
-            "containers": [str(rng.choice(["npy", "pt"])) for _ in range(U)], **extra}
+            "containers": [str(rng.choice(["npy", "pt"])) for _ in range(U)], **extra, **same}
 
 
 def fname(scn, u):
     """name of the feature file of utterance u under the scenario's --file-prefix / --file-suffix"""
     return scn.get("prefix", "") + u + scn.get("suffix", ".pt")
+
+
+def in_path(scn, d, u):
+    """the recording the map names for utterance u (two consecutive ids may name one recording)"""
+    idx = scn["ids"].index(u)
+    if scn.get("same_path") == idx:
+        idx -= 1
+    return os.path.join(d, "raw", "%s.%s" % (scn["ids"][idx], scn["containers"][idx]))
 
 
 def uid_of(scn, fn):
@@ -116,6 +128,9 @@ def write_inputs(scn, d, seed):
         else:
             torch.save(torch.from_numpy(x), p)
         lines.append("%s %s" % (uid, p))
+    if scn.get("same_path"):
+        j = scn["same_path"]
+        lines[j] = "%s %s" % (scn["ids"][j], lines[j - 1].split(" ", 1)[1])
     open(os.path.join(d, "map"), "w").write("\n".join(lines) + "\n")
     if scn.get("post"):
         # a statistics file that holds no statistics yet (count 0): the documented meaning is "standardise every utterance by itself"
@@ -245,12 +260,14 @@ class Checker:
 
         sentinel = torch.full((2, 2), -12345.0)
         saved_inputs = {}
+        needed = {in_path(self.scn, d, v) for v in self.scn["ids"] if v not in listed}
         for u in listed:
             p = os.path.join(work, "out", fname(self.scn, u))
             if os.path.exists(p):
                 torch.save(sentinel, p)
-            idx = self.scn["ids"].index(u)
-            ip = os.path.join(d, "raw", "%s.%s" % (u, self.scn["containers"][idx]))
+            ip = in_path(self.scn, d, u)
+            if ip in needed or ip in saved_inputs:
+                continue  # (a recording that an utterance still to be computed reads as well stays as it is)
             saved_inputs[ip] = open(ip, "rb").read()
             open(ip, "wb").write(b"garbage that no reader can decode")
         st = {"out": os.path.join(work, "resume_strace.txt")} if trace else None
@@ -270,10 +287,9 @@ class Checker:
                     opened.add(l.split('"')[1])
             self.rec.count("resumes_observed_with_strace")
             for u in listed:
-                idx = self.scn["ids"].index(u)
-                ip = os.path.join(d, "raw", "%s.%s" % (u, self.scn["containers"][idx]))
+                ip = in_path(self.scn, d, u)
                 op = os.path.join(work, "out", fname(self.scn, u))
-                if ip in opened or op in opened:
+                if (ip in opened and ip not in needed) or op in opened:
                     self.v("the resumed run opened %s of %r, which the manifest already listed (%s)" % ("the input" if ip in opened else "the feature file", u, fault),
                            check="I5_opened", utt=u, **info)
         if rc != 0:
